@@ -138,6 +138,36 @@ def run(ctx):
     n, rejected, tstates = linetrace.validate(
         ctx, "MC_Trace_Session", TR, path, "tr_sess", keyfn, what="session trace",
         segment_op="reset")
+    # the mailbox transport under every handed-out connection's GBN, by
+    # stream: received = sent, in order, losses and in-place repetitions only,
+    # and sender and receiver of a stream agree on its name (MailboxLink.tla)
+    import c05
+    link_lines = link_rej = 0
+    lpath = os.path.join(out, "c11link.ndjson")
+    if os.path.exists(lpath) and os.path.getsize(lpath) > 0:
+        # a scenario in which the relay itself replaces a message is outside
+        # the link's premise (the relay loses and repeats, it does not alter)
+        keep, on = [], True
+        for x in read_ndjson(lpath):
+            if x.get("ev") == "reset":
+                on = "corrupt" not in x.get("scen", "")
+            if on:
+                keep.append(x)
+        with open(lpath, "w") as fh:
+            for x in keep:
+                fh.write(json.dumps(x) + "\n")
+
+        def lkey(ln, cur, idx):
+            j = idx
+            while j > 0 and cur[j].get("ev") != "reset":
+                j -= 1
+            return "link:received-packet-not-in-order-of-sending:%s:%s" % (
+                ln.get("st"), cur[j].get("scen", "?"))
+        link_lines, link_rej, _ = linetrace.validate(
+            ctx, "Trace_Link", c05.LINK_TR, lpath, "tr_link", lkey,
+            what="link tap log", segment_op="reset")
+    ctx.cov["link_tap_lines_validated"] = link_lines
+    ctx.cov["link_sessions_rejected"] = link_rej
     # the harness's expectations
     scen = "?"
     unmet = 0
